@@ -77,6 +77,40 @@ def map_documented(c, m, n, noise_form, prior_form, noise_param, prior_param, co
     c.eq('estimate_solves_the_normal_equations_of_the_documented_posterior', (A.T @ Pn @ A + Pp) @ xmap, A.T @ (Pn @ y) + Pp @ mu, tol=1e-6)
 
 
+def estimates_with_small_magnitude_matrices(c, param):
+    """noise given by a FULL matrix (covariance or precision) whose entries are tiny in absolute terms (standard deviations around 1e-5 / precisions around
+    1e-9) but strongly correlated: ML and MAP (after compute_cov() where the direct route needs it) are the maximisers of the documented posterior - the
+    correlations are not below any meaningful tolerance (bounded stand-in: native)"""
+    import io, contextlib, warnings
+    m, n = 3, 2
+    A = np.array([[c.real(f'A{i}{j}') for j in range(n)] for i in range(m)]) + np.vstack([np.eye(n), np.ones((1, n))])
+    y = np.array([c.real(f'y{i}') for i in range(m)])
+    Cmat = np.array([[1.0, 0.9, 0.5], [0.9, 1.0, 0.9], [0.5, 0.9, 1.0]]) + 0.2 * np.eye(m)           # strongly correlated
+    scale = 1e-10 if param == 'cov' else 1e-9
+    M = scale * Cmat
+    Pn = np.linalg.inv(M) if param == 'cov' else M                                                 # documented noise precision
+    pv = 1e-10 if param == 'cov' else 1e9                                                          # prior on the same scale, so that both terms matter
+    x = Gaussian(np.zeros(n), pv, name='x'); ynoise = Gaussian(LinearModel(A)(x), **{param: M}, name='y')
+    BP = BayesianProblem(ynoise, x).set_data(y=y * (1e-5 if param == 'cov' else 1e4))
+    data = np.asarray(BP.data, dtype=float)
+    with contextlib.redirect_stdout(io.StringIO()), warnings.catch_warnings():
+        warnings.simplefilter('ignore')
+        ml = 'skipped'
+        if param == 'cov':                       # (with precisions around 1e-9 the gradient is below SciPy's absolute tolerance at every point: the optimiser's stopping rule, not under contract)
+            try: ml = np.asarray(BP.ML(disp=False), dtype=float)
+            except Exception: ml = None
+        if param == 'prec': BP.likelihood.distribution.compute_cov(); BP.prior.compute_cov()
+        try: mp = np.asarray(BP.MAP(disp=False), dtype=float)
+        except Exception: mp = None
+    ref_ml = np.linalg.solve(A.T @ Pn @ A, A.T @ Pn @ data)
+    ref_map = np.linalg.solve(A.T @ Pn @ A + np.eye(n) / pv, A.T @ Pn @ data)
+    for nm, est, ref in (('ML', ml, ref_ml), ('MAP', mp, ref_map)):
+        if isinstance(est, str): continue
+        if est is None: c.holds(f'{nm}:failure_is_reported_by_raising', True); continue
+        c.holds(f'{nm}:estimate_is_the_maximiser_of_the_documented_posterior', bool(np.linalg.norm(est - ref) <= 1e-3 * (np.linalg.norm(ref) + 1e-300)),
+                note=f"estimate {est} vs closed form {ref}")
+
+
 def map_closed_form(c, m, n, noise_form, prior_form, noise_param='cov', prior_param='cov', geom='default'):
     BP, n = _problem(c, m, n, noise_form, prior_form, noise_param, prior_param, geom)
     post = BP.posterior
@@ -322,6 +356,9 @@ def jobs(tier):
             J.append(Job(f'{which}:optimisation_route:wrapper:prior={pk}', lambda c, w=which, pk=pk: optimisation_route(c, w, pk), 'Pbox',
                          [f'{PR}:BayesianProblem._solve_max_point', f'{PR}:BayesianProblem.{which}'], extra=_opt_extra, num=False))
     J.append(Job('MAP:optimisation_route:objective_undefined_at_the_start_point', optimisation_failure, 'B', [f'{PR}:BayesianProblem._solve_max_point'], nnum=3))
+    for param in ('cov', 'prec'):
+        J.append(Job(f'ML_and_MAP:full_noise_matrix_of_small_magnitude:{param}', lambda c, p_=param: estimates_with_small_magnitude_matrices(c, p_), 'B',
+                     [f'{PR}:BayesianProblem.ML', f'{PR}:BayesianProblem.MAP', 'cuqi.distribution._gaussian:get_sqrtprec_from_cov', 'cuqi.distribution._gaussian:get_sqrtprec_from_prec'], nnum=3))
     for geom, proj in (('KL', 'mean'), ('Step', 'mean'), ('Step', 'max')):
         J.append(Job(f'ML_and_MAP:optimisation_route:geometry={geom}:{proj}', lambda c, g=geom, pj=proj: ml_transforming_geometry(c, g, pj), 'B',
                      [f'{PR}:BayesianProblem._solve_max_point', f'{PR}:BayesianProblem.ML', 'cuqi.model._model:Model._check_gradient_can_be_computed'], nnum=3))
